@@ -187,6 +187,16 @@ func Check(c Case) error {
 		if c.OneOff {
 			lo, hi = c.StartAt, c.StartAt
 		}
+		str := string(in)
+		byteOffs := canon.ByteOffsets(str)
+		roundTrips := len(byteOffs) == len(in)+1 && string([]rune(str)) == str && len([]rune(str)) == len(in)
+		if roundTrips {
+			for i, x := range []rune(str) {
+				if x != in[i] {
+					roundTrips = false
+				}
+			}
+		}
 		for at := lo; at <= hi; at++ {
 			h.Eval()
 			ref, ok := refmatch.Find(c.AST, in, refmatch.Global{RE2: c.RE2}, at, c.RTL, Budget)
@@ -242,6 +252,18 @@ func Check(c Case) error {
 				h.NonTrivial(key, func() any {
 					return map[string]any{"pattern": c.Pattern, "options": c.Base.Letters(), "re2": c.RE2, "rtl": c.RTL, "input": string(in), "start_at": at, "result": exp}
 				})
+			}
+			// the string entry point (raw-string candidate filters, byte offset conversion) must agree too
+			if got == exp && roundTrips {
+				ms, err := cp.Re.FindStringMatchStartingAt(str, byteOffs[at])
+				if err == nil {
+					if gs := canon.FromMatch(cp.Re, ms).String(); gs != exp {
+						if known.RE2IgnoreCaseNotWord("c01-re2-ignorecase-notword", c.AST, c.RE2, str) {
+							continue
+						}
+						return fail(c, in, at, fmt.Sprintf("FindStringMatchStartingAt (byte offset %d) %s, reference %s", byteOffs[at], gs, exp))
+					}
+				}
 			}
 			if got != exp {
 				if !c.RTL && known.NonboundaryAtomic("c01-auto-atomic-nonboundary", func() bool {
